@@ -98,6 +98,8 @@ func (t *TBSCertificate) SignWith(signer Certificate, curve Curve, sp SignerLamb
 		if !t.IsCA {
 			return nil, fmt.Errorf("self signed certificates must have IsCA set to true")
 		}
+		// a self signed certificate has no issuer, do not keep one from an earlier signing of this TBSCertificate
+		t.issuer = ""
 	}
 
 	var c beingSignedCertificate
